@@ -69,7 +69,13 @@ def gen_case(rng, ctx):
             if op[0] == "add" and rng.random() < 0.5:
                 op[2] = int(rng.integers(0, maxv + 1))
             lst.append(op)
-    return {"cfg": cfg, "ops": lst, "draw_seed": int(rng.integers(1, 2**30))}
+    case = {"cfg": cfg, "ops": lst, "draw_seed": int(rng.integers(1, 2**30))}
+    if kind in ("log16", "log8") and rng.random() < 0.35:
+        case["start_ptr"] = 2048 - int(rng.integers(0, 60))
+        # make sure the counters are past the reserved range quickly so that draws are consumed
+        case["ops"].insert(0, ["add", hx(keys[0]), int(cfg["num_reserved"]) + 3])
+        case["ops"].insert(1, ["add", hx(keys[0]), int(rng.integers(2, 300))])
+    return case
 
 
 def expand(op, kind):
@@ -118,6 +124,9 @@ def run_case(case, ctx, mon):
     R = state.make(cfg)
     is_log = kind in ("log16", "log8")
     if is_log:
+        if case.get("start_ptr") is not None:
+            L.rand_ptr = int(case["start_ptr"])  # the first operations straddle the end of the current draw batch
+            mon.count("log_cases_starting_near_a_batch_end")
         state.share_draws(L, R)
     seed = case["draw_seed"]
     shared = False
@@ -203,3 +212,4 @@ def floors(mon, ctx):
         for t in ("ulist", "udict", "add", "ngram", "ungram"):
             mon.floor(f"{t} pairs for {kind}", mon.counters[f"pairs:{kind}:{t}"], 20)
     mon.floor("cases with a shared cell", mon.counters["cases_with_shared_cell"], 100)
+    mon.floor("log cases starting near a batch end", mon.counters["log_cases_starting_near_a_batch_end"], 30)
